@@ -114,6 +114,23 @@ class TermEval:
                 return bool(args[0])
             if leafname in ("array", "asarray"):
                 return Vec(args[0])
+            if leafname == "searchsorted":
+                import bisect
+                side = "left"
+                for x in t[2]:
+                    if isinstance(x, tuple) and x and x[0] == "kw" and x[1] == "side":
+                        side = self.ev(x[2])
+                if len(args) > 2:
+                    side = args[2]
+                return (bisect.bisect_right if side == "right" else bisect.bisect_left)(list(args[0]), args[1])
+            if leafname in ("argmax", "argmin"):
+                xs = list(args[0])
+                return xs.index(max(xs) if leafname == "argmax" else min(xs))
+            if leafname in ("any", "all"):
+                return {"any": any, "all": all}[leafname](args[0])
+            if leafname in ("flatnonzero", "nonzero"):
+                r = Vec(i for i, b in enumerate(args[0]) if b)
+                return r if leafname == "flatnonzero" else (r,)
             if leafname == "where":
                 return (Vec(i for i, b in enumerate(args[0]) if b),)
             raise Unknown("call %s" % name)
